@@ -1067,3 +1067,34 @@ Fixpoint wf (s : spec) : Prop :=
   | SUnion cs _ => (fix all (l : list spec) : Prop := match l with [] => True | x :: r => wf x /\ all r end) cs
   | _ => True
   end.
+
+(* no frozen spec inside / no Enum spec inside (hypotheses of the partial extension theorem) *)
+Fixpoint no_frozen (s : spec) : bool :=
+  negb (frozen (mods_of s)) &&
+  match s with
+  | SList e _ _ _ => no_frozen e
+  | STuple es _ _ _ => forallb no_frozen es
+  | SDict (Some fs) _ => forallb (fun kf => no_frozen (snd kf)) fs
+  | SUnion cs _ => forallb no_frozen cs
+  | _ => true
+  end.
+Fixpoint no_enum (s : spec) : bool :=
+  match s with
+  | SEnum _ _ => false
+  | SList e _ _ _ => no_enum e
+  | STuple es _ _ _ => forallb no_enum es
+  | SDict (Some fs) _ => forallb (fun kf => no_enum (snd kf)) fs
+  | SUnion cs _ => forallb no_enum cs
+  | _ => true
+  end.
+(* sizes are not negative and a variable-length tuple has its element spec (the constructors
+   see to both) *)
+Fixpoint sizes_ok (s : spec) : bool :=
+  match s with
+  | SList e mn _ _ => (0 <=? mn) && sizes_ok e
+  | STuple es mn mx _ =>
+      (0 <=? mn) && (fixed_length mn mx || match es with [] => false | _ => true end) && forallb sizes_ok es
+  | SDict (Some fs) _ => forallb (fun kf => sizes_ok (snd kf)) fs
+  | SUnion cs _ => forallb sizes_ok cs
+  | _ => true
+  end.
